@@ -319,7 +319,7 @@ let parse_line lineno (line : string) : hop * bool =
     | [] -> bad "line %d: missing count" lineno
     | c :: rest ->
       let c = num c in
-      if c > 100000 then bad "line %d: count too large" lineno;
+      if c > 1000000 then bad "line %d: count too large" lineno;
       let rec go k acc rest =
         if k = 0 then List.rev acc, rest
         else match rest with
@@ -1374,12 +1374,37 @@ let gen_large (r : rng) small i outdir sparse : unit =
       lcollect l (HRun ((if chance r 50 then l.rootvec else 0), lstack l l.lroots))
     end
   end;
+  (* containers and a root stack with more than 2^16 entries (largesmall: size/3): the last 8
+     slots are the ONLY references to 8 fresh cells, so an index that wraps loses them *)
+  let wide = if small then max 16 (size / 3) else 65536 + 8 in
+  let fresh n = List.init n (fun _ -> match lalloc l (size - 1) (lscalar r) with Some a -> a | None -> 0) in
+  (* the population before any of the fresh tail cells exists: none of the three bodies
+     mentions a tail cell of another container *)
+  let body =
+    let n0 = l.nalive in
+    List.init (wide - 8) (fun j -> if n0 = 0 then 0 else l.alive.(j mod n0)) in
+  let with_tail b tail = List.rev_append (List.rev b) tail in
+  let bigvec = (let tail = fresh 8 in match lalloc l (size - 1) (Vec (with_tail body tail)) with Some v -> v | None -> 0) in
+  let bigarr =
+    (match lalloc l (size - 1) (Arr ([ wide - 8 ], body)) with
+     | Some a -> List.iter (fun x -> ignore (lemit l (HAppend (a, x)))) (fresh 8); a
+     | None -> 0) in
+  let stack_tail = fresh 8 in
+  let stack_body = List.map (fun a -> SA a) body in
+  misc "containers_wider_than_2^16_or_scaled";
   (* phase 2: allocate again, in the cells that were just freed, until out of memory *)
   lbulk l (size - 1);
   for _ = 1 to 3 do
     ignore (lemit l (HAlloc (if chance r 50 then lscalar r else Vec [ lref l ])))
   done;
-  (* phase 3: collect with (almost) no roots *)
+  (* phase 3a: only the wide containers (and the cells kept for 3b) as roots: their last 8
+     elements are reachable through slots >= 2^16 only;
+     phase 3b: a root stack with more than 2^16 slots, the last 8 hold roots found nowhere else
+     (the containers themselves are garbage now) *)
+  lcollect l (HCollect (lstack l (List.filter (fun a -> a <> 0) ([ bigvec; bigarr ] @ stack_tail))));
+  lcollect l (HCollect (with_tail stack_body (List.map (fun a -> SA a) stack_tail)));
+  misc "root_stack_wider_than_2^16_or_scaled";
+  (* phase 3c: collect with (almost) no roots *)
   (match rint r 3 with
    | 0 -> misc "collect_with_no_roots"; lcollect l (HCollect (lstack l []))
    | 1 -> misc "run_triggered"; lcollect l (HRun (0, lstack l []))
